@@ -20,7 +20,10 @@ SHAPES = {
     "two_bases_rev": [("A", []), ("B", []), ("C", ["B", "A"])],
     "diamond": [("A", []), ("B", ["A"]), ("C", ["A"]), ("D", ["B", "C"])],
     "y_shape": [("A", []), ("B", []), ("C", ["A", "B"]), ("D", ["C"])],
+    # two gaps in a row below two bases (C and D never define the member)
+    "double_gap": [("A", []), ("B", []), ("C", ["A", "B"]), ("D", ["C"]), ("E", ["D"])],
 }
+FORCED_GAPS = {"double_gap": (2, 3)}
 # member options: None = absent, else (n_pre, n_post)
 MOPTS_Q = [None, (0, 0), (1, 0), (0, 1), (1, 1)]
 MOPTS_T = [None, (0, 0), (1, 0), (2, 0), (0, 1), (1, 1)]
@@ -31,7 +34,7 @@ NAMES = ["m", "__call__", "register", "mro", "__eq__"]
 def specs(tier):
     out = []
     if tier == "quick":
-        shapes = ["single", "chain2", "chain3", "two_bases", "two_bases_rev", "diamond", "y_shape"]
+        shapes = ["single", "chain2", "chain3", "two_bases", "two_bases_rev", "diamond", "y_shape", "double_gap"]
         kinds = ["method", "pget", "static", "pset"]
         mopts = MOPTS_Q
     else:
@@ -46,7 +49,9 @@ def specs(tier):
                 opts = [None, (0, 0), (1, 0), (1, 1)]
             if kind not in ("method", "pget") and tier == "quick":
                 opts = [None, (0, 0), (1, 1)]
-            for combo in itertools.product(opts, repeat=len(classes)):
+            if len(classes) > 4:
+                opts = [None, (0, 0), (1, 0), (1, 1)] if kind in ("method", "pget") else [None, (0, 0), (1, 1)]
+            for combo in itertools.product(*[[None] if i in FORCED_GAPS.get(shape, ()) else opts for i in range(len(classes))]):
                 if combo[0] is None and all(c is None for c in combo):
                     continue
                 idx = len(out)
